@@ -79,3 +79,31 @@ def impl_parse_tokens(toks):
 
 def impl_lexparse(src):
     return impl_parse_tokens(tokenise(src))
+
+
+# ------------------------------------------------------------------ running programs in-process
+import contextlib
+import io
+import vyxal.main as _M
+from vyxal.context import Context
+from vyxal.transpile import transpile
+
+
+def run_code(py_code, inputs=(), ctx=None, stack=None):
+    """exec generated Python the way `execute_vyxal` does (one namespace = globals of vyxal.main);
+    returns (stack, ctx, printed text)"""
+    ctx = ctx or Context()
+    stack = [] if stack is None else stack
+    ctx.inputs[0][0] = list(inputs)
+    ctx.stacks.append(stack)
+    ns = dict(vars(_M))
+    ns["stack"] = stack
+    ns["ctx"] = ctx
+    buf = io.StringIO()
+    with contextlib.redirect_stdout(buf):
+        exec(py_code, ns)
+    return stack, ctx, buf.getvalue()
+
+
+def run_program(src, inputs=(), dict_compress=True, ctx=None):
+    return run_code(transpile(src, dict_compress), inputs, ctx)
